@@ -45,6 +45,9 @@ def units(tier, seed):
         {"sid": "title", "family": "title", "size": 8 if q else 11, "donor": ("title", 7), "max_slices": 10 if q else 30},
         {"sid": "fixed", "family": "fixed", "size": 10 if q else 14, "donor": ("fixed", 8), "max_slices": 10 if q else 30},
     ]
+    # documents with three and more children in one parent: a wrap / lift / retype around them and an edit of a MIDDLE one
+    specs.append({"sid": "basic", "family": "three", "size": 7 if q else 8, "donor": ("three", 3), "max_slices": 4 if q else 8,
+                  "min_children": 3, "tag": "three-children", "blocks": 4})
     for sp in specs + extra:
         sp["offset"] = seed
         sp["depth"] = 1 if q else 2
@@ -93,13 +96,27 @@ def steps_of(c, node, d, pools, res):
     return list(out.values())
 
 
+def in_gap(a, b, rb):
+    """b's range lies strictly inside the gap of the replace-around step a: a touches [from, gapFrom] and
+    [gapTo, to] only (the gap content is carried over), so at least one untouched token separates b from both.
+    Only FLAT steps b are paired this way (mark / attribute / node-mark steps, replace steps with a closed slice): a
+    step with an open slice also closes and re-opens the nodes around its range, i.e. it reaches a's tokens."""
+    if not isinstance(a, adapters.ReplaceAroundStep) or not (a.gap_from < rb[0] and rb[1] < a.gap_to):
+        return False
+    if isinstance(b, adapters.ReplaceAroundStep):
+        return False
+    if isinstance(b, adapters.ReplaceStep):
+        return b.slice.open_start == 0 and b.slice.open_end == 0
+    return True
+
+
 def check_diamonds(c, node, d, steps, res, size):
     n = 0
     by_start = sorted(steps, key=lambda x: x[2][0])
     for sda, a, ra, opa in steps:
         da = None
         for sdb, b, rb, opb in by_start:
-            if not ra[1] < rb[0]:
+            if not (ra[1] < rb[0] or in_gap(a, b, rb)):
                 continue
             engine.kick(10)
             n += 1
@@ -158,6 +175,8 @@ def check_diamonds(c, node, d, steps, res, size):
 def run_unit(u):
     res = engine.UnitResult(PROPERTY_ID)
     c, sc, docs = common.unit_docs(u)
+    if u.get("min_children"):
+        docs = [d for d in docs if len(d.get("content") or []) >= u["min_children"]]
     model = c.model
     pool = common.pool_slices(u["sid"], u["donor"][0], u["donor"][1])
     pools = ops.default_pools(c, sc, pool, u.get("max_slices"), max_nodes=4, offset=u.get("offset", 0))
